@@ -85,15 +85,17 @@ def nada_dsl_to_nada_mir(outputs: List[Output]) -> Dict[str, Any]:
         timer.start(
             f"nada_dsl.compiler_frontend.nada_dsl_to_nada_mir.{output.name}.process_operation"
         )
-        out_operation_id = output.child.child.id
-        extra_fns = traverse_and_process_operations(
-            out_operation_id, operations, FUNCTIONS
-        )
-        FUNCTIONS.update(extra_fns)
-
-        timer.stop(
-            f"nada_dsl.compiler_frontend.nada_dsl_to_nada_mir.{output.name}.process_operation"
-        )
+        try:
+            out_operation_id = output.child.child.id
+            extra_fns = traverse_and_process_operations(
+                out_operation_id, operations, FUNCTIONS
+            )
+            FUNCTIONS.update(extra_fns)
+        finally:
+            # Also when the traversal raises (e.g. a duplicated input).
+            timer.stop(
+                f"nada_dsl.compiler_frontend.nada_dsl_to_nada_mir.{output.name}.process_operation"
+            )
         party = output.party
         PARTIES[party.name] = party
         new_outputs.append(
